@@ -2,7 +2,7 @@
    Statements only; every proof is [exact <lemma>] into Blob/BytesProofs.v / Blob/BytesLaws.v.
    [bexec ops] is the state reached from the empty state by ANY history [ops]; [bstep] is the
    model of one call on blob.Bytes (Blob/Bytes.v), tied to /repo by the per-run correspondence. *)
-From HP Require Import Base.Prelude Blob.Bytes Blob.BytesProofs Blob.BytesLaws.
+From HP Require Import Base.Prelude Blob.Bytes Blob.BytesProofs Blob.BytesLaws Blob.Typed Blob.TypedProofs.
 Open Scope nat_scope.
 
 (* No call ever panics or blocks on a mutex the caller already holds -- in particular writing a
@@ -111,6 +111,50 @@ Theorem C19_truncate : forall ops bi b n, let st := bexec ops in
     /\ arrays (fst (bstep st (BTrunc bi n))) = arrays st.
 Proof. intros ops bi b n st. subst st. rewrite bstep_reach. exact (trunc_law _ bi b n (proj2 (bexec_inv ops))). Qed.
 Print Assumptions C19_truncate.
+
+(* ---- the typed-array blob (indexeddb/idbblob, js/wasm), JS side: Blob/Typed.v, tied to the code by the observations
+   the harness reads from the JS arrays under node.  (Its Go-side copies of the bytes are not modelled: see the known
+   finding about Bytes() going stale.) ---- *)
+
+(* Views alias: a view IS the corresponding piece of its parent's window, in every state -- whatever is written through
+   either of them afterwards. *)
+Theorem C19_typed_view_is_a_window_of_its_parent : forall st buf off len x y, x <= y -> y <= len ->
+  obj_bytes st (mkO buf (off + x) (y - x)) = sublist x y (obj_bytes st (mkO buf off len)).
+Proof. exact view_is_a_window_of_its_parent. Qed.
+Print Assumptions C19_typed_view_is_a_window_of_its_parent.
+
+(* After every history every blob is a window inside its array (no RangeError is pending) and every handle names a blob. *)
+Theorem C19_typed_reachable_states_are_well_formed : forall ops,
+  twf (fold_left (fun st op => fst (tstep st op)) ops tinit).
+Proof. exact reachable_wf. Qed.
+Print Assumptions C19_typed_reachable_states_are_well_formed.
+
+(* Grow and a shrinking (or equal-size) Truncate move the blob to an array nobody else looks at: its former views keep
+   the old array -- the point where the typed-array blob and a Go slice part ways, and where the differential stream
+   stops comparing aliases. *)
+Theorem C19_typed_grow_detaches : forall st h n oid o, twf st -> handle_obj st h = Some (oid, o) -> (0 <= n)%Z ->
+  sole_owner (fst (tstep st (BGrow h n))) oid.
+Proof. exact grow_detaches. Qed.
+Print Assumptions C19_typed_grow_detaches.
+
+Theorem C19_typed_truncate_detaches : forall st h n oid o, twf st -> handle_obj st h = Some (oid, o) -> (0 <= n)%Z ->
+  Z.to_nat n <= o_len o -> sole_owner (fst (tstep st (BTrunc h n))) oid.
+Proof. exact truncate_detaches. Qed.
+Print Assumptions C19_typed_truncate_detaches.
+
+(* In-range arguments are accepted; Set copies what fits (the repaired behaviour), the one refusal being a non-empty
+   source at offset 0 of an empty blob, as for blob.Bytes. *)
+Theorem C19_typed_in_range_view_accepted : forall st h oid o s e, handle_obj st h = Some (oid, o) ->
+  (0 <= s)%Z -> (s <= e)%Z -> (e <= Z.of_nat (o_len o))%Z -> exists id, snd (tstep st (BView h s e)) = ROk id.
+Proof. exact in_range_view_accepted. Qed.
+Print Assumptions C19_typed_in_range_view_accepted.
+
+Theorem C19_typed_set_copies_what_fits : forall st hd hs oidd d oids s off,
+  handle_obj st hd = Some (oidd, d) -> handle_obj st hs = Some (oids, s) ->
+  (0 <= off)%Z -> (off <= Z.of_nat (o_len d))%Z -> (0 < o_len d \/ o_len s = 0 \/ (0 < off)%Z) ->
+  snd (tstep st (BSet hd hs off)) = ROk (Z.of_nat (Nat.min (o_len s) (o_len d - Z.to_nat off))).
+Proof. exact in_range_set_copies_what_fits. Qed.
+Print Assumptions C19_typed_set_copies_what_fits.
 
 (* Non-vacuity: a concrete reachable state with a view, an out-of-range call and an aliasing write. *)
 Example C19_nonvacuous :
